@@ -2,6 +2,7 @@ package messages
 
 import (
 	"encoding/gob"
+	"errors"
 	"fmt"
 	"reflect"
 	"time"
@@ -65,6 +66,9 @@ type Codec interface {
 	Encode(message any) ([]byte, error)
 	Decode(message []byte) (any, error)
 }
+
+// ErrCodecRequired 表示消息未注册内部读写器且未配置 Codec，无法完成编解码
+var ErrCodecRequired = errors.New("codec required: message is not registered and no codec is configured")
 
 func RegisterInternalMessage[T any](messageName string, reader InternalMessageReader, writer InternalMessageWriter) {
 	tof := reflect.TypeOf((*T)(nil)).Elem().Elem()
